@@ -99,7 +99,7 @@ class Oracle(object):
                 if self.which == 'C16':
                     if sends:
                         self.flag('retry.sent_on_event_loop', 'message sent while handling the decision %r' % (op,), 'C16_obeys')
-                    if pre_exc is None and len(env.queue) != len(pre_queue) + 1:
+                    if pre_exc is None and not env.shut and len(env.queue) != len(pre_queue) + 1:
                         self.flag('retry.not_scheduled', '%s decided for %r but no retry was scheduled' % (
                             H.DECISION_NAMES[dec], op), 'C16_obeys')
             elif self.which == 'C16':
@@ -113,6 +113,14 @@ class Oracle(object):
         if self.which == 'C16' and not sc['idem'] and run.spec_armed():
             self.flag('speculative.non_idempotent', 'speculative timer armed for a non-idempotent statement', 'C16_non_idempotent_never_speculative')
 
+        # ------------------------------------------------ a shut-down session refuses follow-up work
+        if env.shut and resp_ctx is not None and not sends and len(env.queue) == len(pre_queue):
+            wants_followup = (resp_ctx['kind'] == 1) or (expect_consult and len(consults) == 1 and pre_exc is None and
+                                                         (sc['script'][n_cons][0] if n_cons < len(sc['script']) else 1) in (0, 3))
+            if wants_followup and not pre_done and st['exc'] != [11]:
+                self.flag('shutdown.request_left_pending', 'the shut-down session refused the follow-up of %r but the request did not fail '
+                          'with ConnectionShutdown (outcome %r / %r)' % (op, st['res'], st['exc']),
+                          {'C16': 'C16_consulted_once_and_obeyed', 'C17': 'C17_other_sends_are_tasks'}.get(self.which, 'C19_reprepare'))
         # ------------------------------------------------ C19: expectations created by responses
         if resp_ctx and resp_ctx['kind'] == 0 and op[2][0] == 4:
             self.unprepared(op, resp_ctx, pre_queue, pre_exc, sends, st)
@@ -166,7 +174,7 @@ class Oracle(object):
                           'caused %r to be sent (%r)' % (task_exp['resp'], task_exp['host'], sends, op), 'C19_prepare_error_fails_and_stops')
         # ------------------------------------------------ pool accounting of the connections this request used
         acc = run.accounting()
-        if acc and not getattr(self, 'acc_flagged', False):
+        if acc and not env.shut and not getattr(self, 'acc_flagged', False):     # (a shut-down session closes its pools anyway)
             self.acc_flagged = True
             ctxname = {'reprepare': 'reprepare', 'after_prepare': 'reprepare'}.get(task_exp['kind'] if task_exp else '', 'request')
             self.flag(ctxname + '.connection_accounting',
@@ -308,7 +316,7 @@ class Oracle(object):
             return
         if len(env.queue) == len(pre_queue) + 1 and self.qexp:
             self.qexp[-1] = {'kind': 'reprepare', 'host': h, 'qs': stmt[1], 'ks': stmt[2] if flag else None}
-        elif self.which == 'C19':
+        elif self.which == 'C19' and not env.shut:
             self.flag('reprepare.not_scheduled', 'UNPREPARED from host %d but no re-prepare was scheduled (%r)' % (h, op), 'C19_reprepare')
 
     def after_prepare_outcome(self, t, pre_exc, sends, st, op, pre_queue):
@@ -354,7 +362,7 @@ def grow(sc, rng, which, max_ops=14, weights=None, env_changes=True):
             choices = choices + [('page',)] * 3
         if env_changes and started and rng.random() < 0.12:
             op = ['pool', rng.randrange(sc['n']), rng.choice([0, 1, 2, 3, 4, 5, 6, 6, 6])] if rng.random() < 0.8 \
-                else ['ks', rng.choice([None, 1, 2])]
+                else (['ks', rng.choice([None, 1, 2])] if rng.random() < 0.7 else ['shutdown'])
         elif not choices:
             break
         else:
